@@ -49,6 +49,7 @@ func main() {
 	step("single", func() { runSingle(r) })
 	step("isproofed", func() { runIsProofed(r) })
 	step("pow", func() { runPowScenarios(r) })
+	step("pow-forks", func() { runPowForks(r) })
 	step("compact", func() { runCompact(r) })
 
 	// every mechanism of the statement must have been reached
